@@ -1425,8 +1425,13 @@ func FunExpr(query *Query, current Map, expr *sqlparser.FuncExpr, opts ...ExprOp
 			var asyncErr error
 			query.wg.Add(1)
 			go func() {
+				defer query.wg.Done()
+				defer func() {
+					if r := recover(); r != nil {
+						asyncErr = recovered(r)
+					}
+				}()
 				rs, asyncErr = function(query, current, nil, slice)
-				query.wg.Done()
 			}()
 			// the outcome is only read once the call has completed
 			query.postProcessors = append(query.postProcessors, func() error {
@@ -1444,12 +1449,18 @@ func FunExpr(query *Query, current Map, expr *sqlparser.FuncExpr, opts ...ExprOp
 				return nil, e
 			}
 			go func() {
-				_, err := function(query, current, nil, slice)
-				if err != nil {
-					if query.options.errors != nil {
-						query.options.errors(err)
+				var err error
+				defer func() {
+					if r := recover(); r != nil {
+						err = recovered(r)
 					}
-				}
+					if err != nil {
+						if query.options.errors != nil {
+							query.options.errors(err)
+						}
+					}
+				}()
+				_, err = function(query, current, nil, slice)
 			}()
 			return Ommit(true), nil
 		}
@@ -1464,13 +1475,19 @@ func FunExpr(query *Query, current Map, expr *sqlparser.FuncExpr, opts ...ExprOp
 			}
 			query.wg.Add(1)
 			go func() {
-				_, err := function(query, current, nil, slice)
-				if err != nil {
-					if query.options.errors != nil {
-						query.options.errors(err)
+				defer query.wg.Done()
+				var err error
+				defer func() {
+					if r := recover(); r != nil {
+						err = recovered(r)
 					}
-				}
-				query.wg.Done()
+					if err != nil {
+						if query.options.errors != nil {
+							query.options.errors(err)
+						}
+					}
+				}()
+				_, err = function(query, current, nil, slice)
 			}()
 			return Ommit(true), nil
 		}
@@ -1908,6 +1925,14 @@ FINALIZE:
 		query.options.completed()
 	}
 	return rs, nil
+}
+
+// recovered converts a recovered panic value into an error
+func recovered(r any) error {
+	if err, ok := r.(error); ok {
+		return err
+	}
+	return fmt.Errorf("%v", r)
 }
 
 func (query *Query) execAndPostProcess() (result any, err error) {
